@@ -45,6 +45,19 @@ class EnvSub:
         return _observe(self)
 
 
+@labtech.task(cache=None)
+class EnvCount:
+    """context filter that is not idempotent: applying it twice is visible"""
+    k: int
+    deps: tuple = ()
+
+    def filter_context(self, context):
+        return dict(context, depth=context.get('depth', 0) + 1)
+
+    def run(self):
+        return _observe(self)
+
+
 @labtech.task
 class EnvCached:
     k: int
